@@ -143,6 +143,11 @@ impl SendRateComp {
         }
     }
 
+    #[cfg(feature = "verif")]
+    pub fn verif_max_send_rate(&self) -> u32 {
+        self.max_send_rate
+    }
+
     pub fn send_rate(&self) -> f64 {
         self.send_rate as f64
     }
